@@ -148,6 +148,16 @@ CLAIMS = {
         "NOT decided: reflexivity/symmetry/transitivity over all documents."),
   note='Trusted: clang 14 front end.',
   design='5/C18'),
+ 'C15': dict(
+  category='proof',
+  technique='sibling / wrapper agreement rules over three configurations (E9); exhaustive evaluation of the per-arch byte classifiers over all 256 byte values (E5)',
+  text=("Decides the structural preconditions of agreement between static AVX2, static SSE4.2 and dynamic dispatch: (a) every arch function imported by the dispatch layer has the same signature in avx2:: and sse::; "
+        "(b) every target-multiversioned wrapper has a haswell and a westmere version that return ns::same_name(own parameters in order) with the matching chunk size, and a westmere wrapper never calls avx2:: code; "
+        "(c) the shared kernels of both namespaces are instantiations of one source body; (d) GetEscaped<BLOCK> and the vector-loop guard equal the vector width per namespace; "
+        "(e) both white-space shuffle tables and the scalar IsSpace classify exactly {20,09,0a,0d}, and sse::StringBlock::Find, evaluated for all 256 bytes, classifies exactly like the AVX2 kernel's (== backslash, == quote, <= 0x1f unsigned). "
+        "Every other property re-runs its rules on K3/K4 in its thorough tier. NOT decided: equality of results (differential execution property)."),
+  note='Trusted: clang 14 front end; Intel semantics of SSE compare/movemask/pshufb; simd wrapper contracts.',
+  design='5/C15'),
 }
 NA_REASON = {
  'C19': 'Agreement with a recursive merge model over (document, text) pairs; no structural clause that is a necessary condition without mirroring the handler code (DESIGN.md section 7).',
